@@ -499,7 +499,9 @@ def _build_eval_tree(
                     #     (2 * 3 / 4) --> ((2 * 3) / 4)
                     if op_priority[token_text] <= op_priority.get(
                         prev_op, -1
-                    ) and token_text not in ("**", "^"):
+                    ) and not (
+                        token_text in ("**", "^") and prev_op in ("**", "^")
+                    ):
                         # previous operator is higher priority, so end previous binary op
                         return result, index - 1
                     # get right side of binary op
